@@ -122,7 +122,8 @@ def _gen_filter(rng):
     if n == 1 and rng.random() < 0.5:
         data = b'\xff'
     return {'__obj__': 'contracts.c20:make_filter',
-            'args': [_bj(data), rng.choice([0, 1, 2, 5, 50]), rng.getrandbits(32), rng.choice([0, 1, 2])]}
+            'args': [_bj(data), rng.choice([0, 1, 2, 5, 50, 50, 51, 60, 200]), rng.getrandbits(32), rng.choice([0, 1, 2])]}
+    # (hash-function counts above the constructor's cap of 50 can arrive from the wire: 'any hash-function count')
 
 
 def make_filter(vdata, nhash, tweak, flags):
